@@ -20,6 +20,8 @@ CLAIMED = {
    text="For every enumerated store, every version time 0..max+1 and every version id (each stored reference, plus an unknown one) the real processor is run with the resolution option and, separately, on the truncated history; both must agree with each other and with the specification's result for the truncated store; unknown ids and times before the first operation must be errors."),
  "C12": dict(engine="Resolution", design="4/C12", technique="TLA+ Resolution model over cyclic-commitment alphabets (ConsumeOnce, NoRevisit) + replay with non-termination watchdog",
    text="Self-loops, 2-cycles and 3-cycles in the update and recovery chains at every chain position are enumerated; TLC checks on the specification that no chain consumes a commitment twice or revisits one; every store is replayed on the real processor (must terminate and equal the specification's chain prefix)."),
+ "C05": dict(engine="Window", design="4/C05", technique="TLA+ Window model with the protocol configuration as a variable (WindowEffect, OnlyDelta) + replay of the full product on the real processor and on the real parser with a recording time validator",
+   text="The full product of operation type x anchorFrom x anchorUntil x anchoring time x time delta x decoy parameter settings is enumerated by TLC, which derives the expected state from the SidetreeCore state machine and the expected time-validator arguments; each case is executed on real code. Varying unrelated parameters independently is what exposes a window computed from the wrong parameter."),
 }
 
 def check(pid, m):
